@@ -211,6 +211,9 @@ def run_long_line_case(case, ctx):
     vals_ = {nm: round(rnd.uniform(0.3, 1.7), 4) for nm in names_}
     cf = [rnd.choice([84300.0, 2.5, 150300.0, 0.07, 1234.5678, 3.0]) for _ in range(3)]
     sm = [rnd.choice([1e-05, 2.173e-06, 0.001, 1.0]) for _ in range(3)]
+    # (large coefficient x small scale: the products stay O(1), otherwise sin / cos of an argument of 1e5 amplify the rounding of
+    # the argument beyond the comparison tolerance - seed 8 of the quick sweep: jax and numpy 4e-9 apart)
+    sm = [1e-05 if c_ * s_ > 20 else s_ for c_, s_ in zip(cf, sm)]
     n1, n2, n3 = names_
     pad = ''.join(f" + {round(rnd.uniform(0.1, 0.9), 3)}*{rnd.choice(names_)}*z" for _ in range(rnd.randint(0, 3)))
     pw_, pe_ = rnd.choice(['**', '^']), rnd.choice([2, 3])
